@@ -20,6 +20,11 @@ Qed.
 Lemma multi_not_enough_spec n m : multi_not_enough n m = false <-> (m <= n)%Z.
 Proof. unfold multi_not_enough. rewrite Z.ltb_ge. reflexivity. Qed.
 
+(** The recovering wrapper of the crypto library's Verify has the shape [wverify] mirrors
+    (the translator defines this constant only when it found that shape in the source). *)
+Lemma verify_wrapper_shape : verify_wrapper_recovers = true.
+Proof. reflexivity. Qed.
+
 (** * 0b. The address set *)
 
 Lemma mem_addr_In a l : mem_addr a l = true <-> In a l.
@@ -56,6 +61,7 @@ Variable H : bytes -> bytes.
 Variable Keth : bytes -> bytes.
 
 Notation get_sig := (get_sig deser).
+Notation wverify := (wverify sigT sverify).
 Notation find_slot := (find_slot sigT sverify).
 Notation multi_loop := (multi_loop sigT sdeser sverify).
 Notation verify_multi := (verify_multi sigT sdeser sverify).
@@ -81,6 +87,9 @@ Definition sigset_valid (h : bytes) (ss : sigset) : Prop :=
       exists k sb, nth_error (ss_keys ss) (nth i ps 0%nat) = Some k /\
                    nth_error (ss_sigdata ss) i = Some sb /\ verifies k h sb.
 
+Lemma wverify_true k h s : wverify k h s = true <-> sverify k h s = VTrue.
+Proof. unfold Sig.wverify. destruct (sverify k h s); split; congruence. Qed.
+
 (** ** find_slot *)
 Lemma find_slot_found h s : forall keys mask mask',
   find_slot h s keys mask = SFound mask' ->
@@ -91,27 +100,17 @@ Proof.
   induction keys as [|k ks IH]; intros mask mask' E; [discriminate|].
   destruct mask as [|b bs]; [discriminate|]. cbn [Sig.find_slot] in E.
   destruct b.
-  - destruct (find_slot h s ks bs) as [m'| |] eqn:F; try discriminate.
+  - destruct (find_slot h s ks bs) as [m'|] eqn:F; try discriminate.
     injection E as <-. destruct (IH _ _ F) as (p & k' & A & B & C & D & G).
     exists (S p), k'. repeat split; try assumption.
     intros [|q] Hq; [reflexivity|]. cbn. apply G. congruence.
-  - destruct (sverify k h s) eqn:V; try discriminate.
-    + injection E as <-. exists 0%nat, k. repeat split; try assumption.
+  - destruct (wverify k h s) eqn:V.
+    + apply wverify_true in V. injection E as <-. exists 0%nat, k. repeat split; try assumption.
       intros [|q] Hq; [congruence|reflexivity].
-    + destruct (find_slot h s ks bs) as [m'| |] eqn:F; try discriminate.
+    + destruct (find_slot h s ks bs) as [m'|] eqn:F; try discriminate.
       injection E as <-. destruct (IH _ _ F) as (p & k' & A & B & C & D & G).
       exists (S p), k'. repeat split; try assumption.
       intros [|q] Hq; [reflexivity|]. cbn. apply G. congruence.
-Qed.
-
-(** No key verifies: no slot, whatever the mask. *)
-Lemma find_slot_none h s : forall keys mask,
-  (forall k, In k keys -> sverify k h s = VFalse) -> find_slot h s keys mask = SNone.
-Proof.
-  induction keys as [|k ks IH]; intros mask A; [reflexivity|].
-  destruct mask as [|b bs]; [reflexivity|]. cbn [Sig.find_slot].
-  rewrite (IH bs) by (intros; apply A; right; assumption).
-  destruct b; [reflexivity|]. rewrite (A k) by (left; reflexivity). reflexivity.
 Qed.
 
 (** ** multi_loop *)
@@ -126,7 +125,7 @@ Proof.
   - exists []. repeat split; [constructor|intros p []|intros i Hi; lia].
   - cbn [Sig.multi_loop] in E. destruct sigs as [|sb rest]; [discriminate|].
     destruct (sdeser sb) as [s|] eqn:D; [|discriminate].
-    destruct (find_slot h s keys mask) as [mask'| |] eqn:F; try discriminate.
+    destruct (find_slot h s keys mask) as [mask'|] eqn:F; try discriminate.
     destruct (find_slot_found _ _ _ _ _ F) as (p & k & Kp & Mp & V & Mp' & Oth).
     destruct (IH _ _ E) as (ps & L & ND & Free & Ver).
     assert (NotIn : ~ In p ps).
@@ -150,7 +149,7 @@ Proof.
   - destruct (ss_keys ss) as [|k [|k2 ks]] eqn:EK; try (cbn [length] in K1; lia).
     destruct (ss_sigdata ss) as [|sb rest] eqn:ES; [discriminate|].
     unfold Sig.verify_single in E. destruct (sdeser sb) as [s|] eqn:D; [|discriminate].
-    destruct (sverify k h s) eqn:V; try discriminate.
+    destruct (wverify k h s) eqn:V; try discriminate. apply wverify_true in V.
     destruct (address_from_pubkey H Keth k) as [a'| |] eqn:A; try discriminate.
     injection E as <-. cbn [length] in *. split.
     + unfold sigset_valid. cbv zeta. rewrite EK, ES. cbn [length].
